@@ -9,7 +9,11 @@ CONFIG = dict(
     rule=("(1) vel: the real ParticleVelocitiesUpdate on prepared swarms (1-10 particles, 1-5 dimensions, v_max 1e-3..10, "
           "stored weight in {0, .4, .9, 1, 1.5} different from the component's own weight field, c1/c2 in {0..4}, velocities "
           "up to 3 v_max, partly unevaluated particles) with a scripted generator (words incl. 0, 2^63, 2^64-1); the draws are "
-          "read back from the consumed words (word -> (w>>11)*2^-53 re-checked) and the model recomputes every coordinate; "
+          "read back from the consumed words (word -> (w>>11)*2^-53 re-checked) and the model recomputes every coordinate "
+          "(K: relative tolerance 1e-9, either assignment of the two consumed draws to the cognitive / social term, any "
+          "association of the sum; O: |v'| <= v_max, x' = x + v' to one rounding, and v' = clamp(w_stored*v) wherever both "
+          "attraction terms vanish - a quarter of the cases has c1 = c2 = 0, a quarter has every particle on its personal and "
+          "the global best, stored weights up to 1.5); "
           "(2) vel-malformed: size mismatches between particles / velocities / personal bests, missing global best, "
           "dimension mismatches; (3) velinit; (4) pbest-init / pbest-update and gbest on populations with objective ties, "
           "improvements, unevaluated members, unequal lengths; (5) swarm: the ParticleSwarmUpdate block on states satisfying "
@@ -19,7 +23,8 @@ CONFIG = dict(
           "pass boundaries, inertia weight vs linear interpolation at iterations/n, personal bests monotone / = min(old, "
           "candidate) / = the harness's own per-particle best raw objective / not stale, global best = min personal best "
           "and a member; run-vel: EVERY velocity update of those runs re-emitted as a prepared `vel` case with the exact "
-          "words consumed, so the model re-derives it. Non-trivial = not a malformed case; distinct = distinct input line."),
+          "words consumed, so the model re-derives it; plus real_pso built directly with parameters outside the template table "
+          "(inertia 1.4 -> 0.4 with c1 = c2 = 0, 1.2 -> 0.4, increasing 0.4 -> 0.9, constant 0.729, single particle). Non-trivial = not a malformed case; distinct = distinct input line."),
     nontrivial=lambda inp: not inp.startswith("(velinit") and "(gbest none)" not in inp,
     trusted_base=[
         "rand 0.8.8: gen::<f64>() = (next_u64() >> 11) * 2^-53 (re-checked against the consumed words on every vel case); "
@@ -27,7 +32,7 @@ CONFIG = dict(
         "f64::clamp(lo, hi) = if v < lo {lo} else if v > hi {hi} else {v}",
         "individuals are (position, objective, evaluated flag); RefCell borrows are not modelled (C02)"],
     assumptions=["theorems are in exact (ordered-field) arithmetic and quantify over all draws; the implementation is compared "
-                 "with the compiled model bit for bit (same IEEE operations in the same order)"],
+                 "with the compiled model up to 1e-9 relative (draw assignment and association order of the velocity sum are not part of the property); transported data exactly"],
     timeout_quick=600,
 )
 CONFIG.update(
